@@ -13,7 +13,7 @@ If the source expression changes, either the equality is re-proved (harmless rew
 this file stops building (a broken proof obligation, followed by the failing-input search).
 -/
 namespace DashLive.GenTie
-open DashLive
+open DashLive DashLive.Segments
 
 theorem fdiv_cast (a b : Nat) : Int.fdiv (a : Int) (b : Int) = ((a / b : Nat) : Int) := by
   rw [Int.fdiv_eq_ediv_of_nonneg _ (Int.natCast_nonneg b)]
@@ -93,5 +93,66 @@ theorem vodIndex_uses_tie (n sd sn t : Nat)
   simp only [hin, if_false]
   congr 1
   omega
+
+/-! ### the translated `while` loop of `get_segment_index` -/
+
+/-- the list lookup `self.segments[i].duration` (1-based `i`) as the model's `durAt` -/
+def segDurOf (durs : List Nat) : Int → Int := fun i => ((durAt durs (i - 1).toNat : Nat) : Int)
+
+theorem segDurOf_succ (durs : List Nat) (m : Nat) : segDurOf durs ((m : Int) + 1) = (durAt durs m : Nat) := by
+  unfold segDurOf
+  have : ((m : Int) + 1 - 1).toNat = m := by omega
+  rw [this]
+
+theorem tie_gsiLoop (durs : List Nat) (R tc : Nat) :
+    ∀ (fuel m s o : Nat),
+      Gen.Arith.getSegmentIndex_while1 (segDurOf durs) (timecode := tc) (ref_duration_tc := R)
+          (num_media_segments := durs.length) fuel (s : Int) ((m : Int) + 1) (o : Int)
+        = ((((gsiLoop durs R tc fuel m s o).2.1 : Nat) : Int), (((gsiLoop durs R tc fuel m s o).1 : Nat) : Int) + 1,
+           (((gsiLoop durs R tc fuel m s o).2.2 : Nat) : Int)) := by
+  intro fuel
+  induction fuel with
+  | zero => intro m s o; rfl
+  | succ f ih =>
+    intro m s o
+    unfold Gen.Arith.getSegmentIndex_while1 gsiLoop
+    rw [segDurOf_succ]
+    have hc : (((s : Int) + Int.fdiv ((durAt durs m : Nat) : Int) (2 : Int)) < (tc : Int)) ↔ (s + durAt durs m / 2 < tc) := by
+      have := fdiv_cast (durAt durs m) 2
+      have h2 : ((2 : Nat) : Int) = (2 : Int) := rfl
+      rw [h2] at this
+      rw [this]; omega
+    by_cases h : s + durAt durs m / 2 < tc
+    · rw [if_pos (hc.mpr h), if_pos h]
+      dsimp only
+      by_cases hw : m + 1 ≥ durs.length
+      · have hw' : ((m : Int) + 1 + 1 > (durs.length : Int)) := by omega
+        rw [if_pos hw', if_pos hw', if_pos hw', if_pos hw]
+        have := ih 0 (o + R) (o + R)
+        simp only [Int.natCast_add, Int.natCast_zero, Int.zero_add] at this
+        exact this
+      · have hw' : ¬ ((m : Int) + 1 + 1 > (durs.length : Int)) := by omega
+        rw [if_neg hw', if_neg hw', if_neg hw', if_neg hw]
+        have := ih (m + 1) (s + durAt durs m) o
+        simp only [Int.natCast_add, Int.natCast_one] at this
+        exact this
+    · rw [if_neg (fun hh => h (hc.mp hh)), if_neg h]
+
+/-- `Representation.get_segment_index` as translated from the source = the model every C01/C02/C06/C09
+theorem is about (`Segments.getSegmentIndex`), with the loop bound the model uses -/
+theorem tie_getSegmentIndex (durs : List Nat) (refDur refTs ts tc : Nat) :
+    Gen.Arith.getSegmentIndex (segDurOf durs) refDur refTs ts durs.length tc (durs.length + 1)
+      = ((((Segments.getSegmentIndex durs (refDuration refDur refTs ts) tc).1 : Nat) : Int),
+         (((Segments.getSegmentIndex durs (refDuration refDur refTs ts) tc).2.1 : Nat) : Int),
+         (((Segments.getSegmentIndex durs (refDuration refDur refTs ts) tc).2.2 : Nat) : Int)) := by
+  unfold Gen.Arith.getSegmentIndex Segments.getSegmentIndex
+  dsimp only
+  rw [tie_refDuration]
+  generalize refDuration refDur refTs ts = R
+  rw [fdiv_cast, ← Int.natCast_mul]
+  have h := tie_gsiLoop durs R tc (durs.length + 1) 0 (tc / R * R) (tc / R * R)
+  simp only [Int.natCast_zero, Int.zero_add] at h
+  rw [h]
+  simp only [Int.natCast_add, Int.natCast_one]
 
 end DashLive.GenTie
